@@ -123,6 +123,11 @@ var unsafeTypes = map[string]map[string]bool{
 	"mime/multipart": {"Reader": true, "Writer": true},
 }
 
+// readOnlyMethods of the listed types do not change the object (concurrent calls of these alone
+// are not a race).
+var readOnlyMethods = map[string]bool{"Len": true, "Cap": true, "Bytes": true, "String": true, "Size": true, "Available": true,
+	"Buffered": true, "Sum": true, "Sum32": true, "Sum64": true, "BlockSize": true, "Front": true, "Back": true, "Err": true}
+
 var unsafeCtors = map[string]map[string]bool{
 	"bufio":           {"NewReader": true, "NewReaderSize": true, "NewWriter": true, "NewWriterSize": true, "NewScanner": true, "NewReadWriter": true},
 	"bytes":           {"NewBuffer": true, "NewBufferString": true, "NewReader": true},
@@ -1248,7 +1253,9 @@ func (a *accs) expr(e ast.Node) {
 				// the receiver of a method call is read (unless it is a lock)
 				if path, ok := a.p.varPath(s.X); ok {
 					if !a.p.syncLike[path] {
-						a.note(s.X, a.p.unsafeObj[path])
+						// a stateful standard-library object: using it changes it, except through the
+						// handful of methods that only look
+						a.note(s.X, a.p.unsafeObj[path] && !readOnlyMethods[s.Sel.Name])
 					}
 					a.indices(s.X)
 					for _, arg := range x.Args {
